@@ -162,7 +162,8 @@ class Check(PropertyCheck):
                     # the same number of subscribers as before, other individuals
                     victim = rng.randrange(len(kinds))
                     if kinds[victim] in ("makespan_reward", "idle_reward"):
-                        lines += [f"unsub {victim}", "obs " + kinds[victim], "wsnap"]
+                        # (code that looks the reward observer up by its base class, before the swap and after it)
+                        lines += ["cogb", f"unsub {victim}", "obs " + kinds[victim], "cogb", "wsnap"]
                         kinds.append(kinds[victim])
                         kinds[victim] = "retired"
             if rng.random() < 0.04:
@@ -227,6 +228,15 @@ class Check(PropertyCheck):
         if line.startswith("inst"):
             ctx["n"] = 0
             return res
+        if line == "cogb" and getattr(impl, "last_cogb", None) is not None:
+            got = impl.last_cogb
+            if got[0] == "raised":
+                res.append(("lookup", f"create_or_get_observer(RewardObserver) raised {got[1]} while a reward observer is subscribed"))
+            elif not got[2]:
+                res.append(("lookup", "create_or_get_observer(RewardObserver) handed out an observer that is not subscribed (it receives no "
+                            "rewards any more)"))
+            elif not got[1]:
+                res.append(("lookup", "create_or_get_observer(RewardObserver) did not return the first subscribed reward observer"))
         if line == "reset":
             ctx["n"] = 0
             ctx["late"] = {}
